@@ -469,6 +469,11 @@ def C14(run):
                                    'guarded_str_is_program (lean/Props/C14Prog.lean)',
                                    'Fixed.__str__ / Guarded.__str__ of droop/values, executed symbolically, are no longer the decision trees '
                                    'lean/Props/C14Prog.lean proves equal to the model')
+        broken = broken + gen_gate(run, 'translator_rstr', 'gen_rstr', 'programs',
+                                   'Gen.rationalUnits = C14.rationalUnitsProg, Gen.rationalRender = C14.rationalRenderProg by rfl; rational_units_is_program, '
+                                   'rational_render_is_program, rational_str_is_program (lean/Props/C14Rat.lean)',
+                                   'Rational.__str__ (or the _dps / _dpr assignments of Rational.initialize), executed symbolically, is no longer the pair of '
+                                   'programs lean/Props/C14Rat.lean proves equal to the model')
     rng = rng_for(run)
     items = []
     for _ in range(budget(run, 30000, 500000)):
